@@ -1,7 +1,9 @@
 #!/usr/bin/env python3
-"""usage: tools/mkmutprompt.py C05 2  -> creates worktree /tmp/mut-C05, prints the prompt (property text only)"""
+"""usage: tools/mkmutprompt.py C05 2 [first_k]  -> creates worktree /tmp/mut-C05, prints the prompt (property text only)"""
 import json, pathlib, subprocess, sys
 pid, n = sys.argv[1], sys.argv[2]
+k0 = int(sys.argv[3]) if len(sys.argv) > 3 else 1
+klist = ", ".join(str(k0 + i) for i in range(int(n)))
 root = pathlib.Path(__file__).resolve().parent.parent
 p = next(json.loads(l) for l in open(root / "properties.jsonl") if json.loads(l)["id"] == pid)
 wt = f"/tmp/mut-{pid}"
@@ -12,7 +14,7 @@ pathlib.Path(f"{out}/{pid}").mkdir(parents=True, exist_ok=True)
 anchors = "; ".join(f"{m['name']} ({m['where']})" for m in p["anchors"]["mechanism"]) + " — files: " + ", ".join(p["anchors"]["files"])
 t = (root / "docs" / "mutation_prompt.txt").read_text()
 for k, v in {"{WT}": wt, "{OUT}": out, "{PID}": pid, "{TITLE}": p["title"], "{STATEMENT}": p["statement"],
-             "{QUANT}": p["quantifier"]["text"], "{ANCHORS}": anchors, "{N}": n}.items():
+             "{QUANT}": p["quantifier"]["text"], "{ANCHORS}": anchors, "{N}": n, "{KLIST}": "{" + klist + "}"}.items():
     t = t.replace(k, v)
 pathlib.Path(f"/tmp/mut-out/prompt_{pid}.txt").write_text(t)
 print(f"/tmp/mut-out/prompt_{pid}.txt")
